@@ -945,11 +945,12 @@ func (se *setEnum) Parse(lines []string) error {
 func parseValueFromSchema(s string, schema *spec.SimpleSchema) (interface{}, error) {
 	if schema != nil {
 		switch strings.Trim(schema.TypeName(), "\"") {
-		case "integer", "int", "int64", "int32", "int16":
+		// TypeName() is the format when there is one: all the numeric formats the scanner assigns are listed
+		case "integer", "int", "int64", "int32", "int16", "int8", "uint", "uint64", "uint32", "uint16", "uint8":
 			return strconv.Atoi(s)
 		case "bool", "boolean":
 			return strconv.ParseBool(s)
-		case "number", "float64", "float32":
+		case "number", "float64", "float32", "float", "double":
 			return strconv.ParseFloat(s, 64)
 		case "object":
 			var obj map[string]interface{}
